@@ -7,6 +7,7 @@
 # prints one line: CONFIRMED/REJECTED <why> ; DETECTED/MISSED
 set -u
 MUT=$(cd "$1" && pwd); PROP=$2; TIER=${3:-quick}
+LOGD=${MUTLOGS:-/var/tmp/mutlogs}; mkdir -p $LOGD; LOG=$LOGD/$(basename $MUT).$PROP.$TIER.log
 export GOFLAGS=-mod=mod GOPROXY=off GOSUMDB=off GOTOOLCHAIN=local
 W=/tmp/mutcheck.$$
 git -C /repo worktree add -q --detach $W HEAD || exit 2
@@ -26,9 +27,9 @@ echo "CONFIRMED"
 cd /verif
 if [ -n "$(git -C /repo status --porcelain --untracked-files=no)" ]; then echo "/repo is dirty, not applying"; exit 2; fi
 git -C /repo apply $MUT/patch.diff || exit 2
-./check $PROP --tier $TIER > $MUT/check.$PROP.$TIER.log 2>&1
+./check $PROP --tier $TIER > $LOG 2>&1
 rc=$?
 git -C /repo checkout -- .
-if [ $rc -eq 1 ] && grep -q "^VIOLATION property=$PROP" $MUT/check.$PROP.$TIER.log; then echo "DETECTED by ./check $PROP --tier $TIER ($(grep -c '^VIOLATION' $MUT/check.$PROP.$TIER.log) violation lines)";
-elif [ $rc -eq 2 ]; then echo "BROKEN check (rc=2): $(grep BROKEN $MUT/check.$PROP.$TIER.log | head -1 | cut -c1-200)";
-else echo "MISSED by ./check $PROP --tier $TIER (rc=$rc, drift lines: $(grep -c '^MODEL-DRIFT' $MUT/check.$PROP.$TIER.log))"; fi
+if [ $rc -eq 1 ] && grep -q "^VIOLATION property=$PROP" $LOG; then echo "DETECTED by ./check $PROP --tier $TIER ($(grep -c '^VIOLATION' $LOG) violation lines)";
+elif [ $rc -eq 2 ]; then echo "BROKEN check (rc=2): $(grep BROKEN $LOG | head -1 | cut -c1-200)";
+else echo "MISSED by ./check $PROP --tier $TIER (rc=$rc, drift lines: $(grep -c '^MODEL-DRIFT' $LOG))"; fi
